@@ -136,7 +136,7 @@ theorem slotCallables_slotOf_isEmpty (es : List DView) :
     simp [slotCallables, slotCallablesFrom, Gen.C03.viewTypes]
 
 theorem sroPairs_eq (r : Request) : sroPairs r = specPairs r := by
-  simp [sroPairs, specPairs, Gen.C03.requestMajor]
+  simp [sroPairs, sroPairsOf, specPairs, Gen.C03.requestMajor]
 
 theorem isEmpty_flatMap {α β} (l : List α) (f : α → List β) :
     (l.flatMap f).isEmpty = l.all fun x => (f x).isEmpty := by
